@@ -14,7 +14,9 @@ def run(path):
         events, bads, diffs, res = sess.validate(tr, module=module)
         for e in events:
             if e["e"] == "cmd":
-                print("  %-60s => %s %s upd=%s" % (e["text"][:60], e["res"], e.get("msg", "")[:60].replace("\n", " "), e.get("upd")))
+                print("  %s %-60s => %s %s upd=%s" % (e.get("slot", ""), e["text"][:60], e["res"], e.get("msg", "")[:60].replace("\n", " "), e.get("upd")))
+            elif e["e"] != "decl":
+                print("  -- %s %s" % (e["e"], e.get("why", "")))
         if bads:
             for i, c in bads:
                 print("BAD at command %d: %s %s" % (i, c, diffs.get(i, "")))
